@@ -5,7 +5,7 @@ kinds (driver lines {"t":"ref","kind":K,"a":[decimal strings],"got":G}):
   tsig.schnorr  a = [p,q,g,y,m,c,s]         got = "1"/"0": verdict that the textbook Schnorr equation must give
   tsig.dsa      a = [p,q,g,y,m,r,s]         got = "1"/"0": verdict of textbook DSA with range checks
   tsig.schnorr.<class> / tsig.dsa.<class>   the same functions under the name of the deviation class of the case
-                (builtin, silent, tamper-bcast, tamper-ucast, outcast), so that a finding key pyref/<kind> is specific
+                (builtin, silent, tamper-bcast, tamper-ucast, outcast, xphase = cross-phase cells), so that a finding key pyref/<kind> is specific
 
 tmcg_g / tmcg_mpz_shash are re-implemented from the description of the construction in src/mpz_shash.cc:
   g(x) with 32 output bytes: two work buffers (SHA-256 and SHA3-256), four rounds i = 0..3; round i hashes
@@ -93,7 +93,7 @@ KINDS = {
     'tsig.schnorr': _verdict(schnorr_valid, 'Schnorr'),
     'tsig.dsa': _verdict(dsa_valid, 'DSA'),
 }
-for _c in ('builtin', 'silent', 'tamper-bcast', 'tamper-ucast', 'outcast'):
+for _c in ('builtin', 'silent', 'tamper-bcast', 'tamper-ucast', 'outcast', 'xphase'):
     KINDS['tsig.schnorr.' + _c] = KINDS['tsig.schnorr']
     KINDS['tsig.dsa.' + _c] = KINDS['tsig.dsa']
 # signatures of runs in which the harness observed the root cause of the known finding "DKG erases a party from QUAL"
